@@ -4,6 +4,7 @@ package harness
 
 import (
 	"context"
+	"errors"
 	"fmt"
 	"google.golang.org/protobuf/proto"
 	"io"
@@ -347,7 +348,7 @@ func c04Run(c *c04Case, carrier string, rep int) *c04Obs {
 				obs.HandlerRet = "nil"
 			} else {
 				obs.HandlerRet = fmt.Sprintf("code=%d", status.Code(err))
-				if err == context.Canceled || err == context.DeadlineExceeded {
+				if errors.Is(err, context.Canceled) || errors.Is(err, context.DeadlineExceeded) {
 					obs.HandlerRet = "ctx:" + err.Error()
 				}
 			}
@@ -356,8 +357,11 @@ func c04Run(c *c04Case, carrier string, rep int) *c04Obs {
 		}()
 		step := func(name string) error {
 			ctl.at("h:" + name)
-			if c.Attitude == "return-ctx-err" {
+			if c.Attitude == "return-ctx-err" || c.Attitude == "return-wrapped-ctx-err" {
 				if e := ctx.Err(); e != nil {
+					if c.Attitude == "return-wrapped-ctx-err" {
+						return fmt.Errorf("backend lookup failed: %w", e)
+					}
 					return e
 				}
 			}
@@ -668,7 +672,7 @@ func c04Run(c *c04Case, carrier string, rep int) *c04Obs {
 			obs.Fault = "the handler's context was not cancelled within " + handlerBound.String() + " of the caller's " + c.Mode
 		}
 	}
-	if obs.Fault == "" && c.Attitude == "return-ctx-err" && strings.HasPrefix(obs.HandlerRet, "ctx:") {
+	if obs.Fault == "" && (c.Attitude == "return-ctx-err" || c.Attitude == "return-wrapped-ctx-err") && strings.HasPrefix(obs.HandlerRet, "ctx:") {
 		// the handler returned a context error: the client must see the matching code (never another one)
 		for _, r := range obs.Results {
 			if strings.Contains(r, "code = ") && !strings.Contains(r, "code = "+wantCode.String()) && !strings.Contains(r, "recv again") {
@@ -700,6 +704,9 @@ func c04ServerDeadline(c c04Case) *Outcome {
 			hmu.Unlock()
 			if c.Attitude == "return-status" {
 				return status.FromContextError(hctx.Err()).Err()
+			}
+			if c.Attitude == "return-wrapped-ctx-err" {
+				return fmt.Errorf("backend lookup failed: %w", hctx.Err())
 			}
 			return hctx.Err()
 		case <-time.After(stallBound):
@@ -876,14 +883,14 @@ func genC04(t *rapid.T) c04Case {
 	c := c04Case{Carrier: rapid.SampledFrom(sutCarriers).Draw(t, "carrier"), Kind: rapid.SampledFrom(allKinds).Draw(t, "kind")}
 	if isHTTP(c.Carrier) && rapid.IntRange(0, 11).Draw(t, "serverdeadline") == 0 {
 		c.Mode = "server-deadline"
-		c.Attitude = rapid.SampledFrom([]string{"return-ctx-err", "return-status"}).Draw(t, "sdattitude")
+		c.Attitude = rapid.SampledFrom([]string{"return-ctx-err", "return-status", "return-wrapped-ctx-err"}).Draw(t, "sdattitude")
 		c.NReq, c.NResp = rapid.IntRange(0, 2).Draw(t, "sdnreq"), rapid.IntRange(0, 2).Draw(t, "sdnresp")
 		// a fraction of a millisecond on top of whole ones: the timeout header is cut to whole units
 		c.DeadlineUs = rapid.IntRange(3, 30).Draw(t, "sdms")*1000 + rapid.SampledFrom([]int{0, 500, 950}).Draw(t, "sdus")
 		return c
 	}
 	c.Mode = rapid.SampledFrom([]string{"cancel", "cancel", "deadline"}).Draw(t, "mode")
-	c.Attitude = rapid.SampledFrom([]string{"ignore", "ignore", "return-ctx-err", "block", "return-send-err"}).Draw(t, "attitude")
+	c.Attitude = rapid.SampledFrom([]string{"ignore", "ignore", "return-ctx-err", "return-wrapped-ctx-err", "block", "return-send-err"}).Draw(t, "attitude")
 	c.NReq = rapid.IntRange(0, 3).Draw(t, "nreq")
 	c.NResp = rapid.IntRange(0, 3).Draw(t, "nresp")
 	if c.Kind == kClientStream {
